@@ -75,7 +75,12 @@ func Execute(spec *Spec, tp *Tape, e *Env) (res *RunResult) {
 				}
 			}
 		}()
-		spec.Run(tp, e)
+		if spec.Extra != nil && spec.ExtraEvery > 0 && e.RunIndex%spec.ExtraEvery == spec.ExtraEvery-1 {
+			e.Probe("extra_engine_runs")
+			spec.Extra(tp, e)
+		} else {
+			spec.Run(tp, e)
+		}
 	}()
 	if tp.Overflow {
 		e.Undecided("tape overflow (> %d draws)", tp.Limit)
